@@ -1,6 +1,7 @@
 (* C19 — Counters, bounds and every access path agree with the retrievable dataset.
    Only the property theorems, each closed by a lemma of Proofs/. *)
-From T38 Require Import Base.Bytes Model.Float32 Model.Collection Proofs.CollectionProofs Proofs.CollectionBounds.
+From T38 Require Import Base.Bytes Model.Float32 Model.Collection Proofs.CollectionProofs Proofs.CollectionBounds Proofs.CollectionTotals.
+From T38 Require Import Model.HookReg.
 Import ListNotations.
 Local Open Scope Z_scope.
 
@@ -35,6 +36,38 @@ Theorem c19_paths_agree : forall c, Wf c ->
   NoDup (map o_id (spatial_list c)) /\ NoDup (map o_id (scan_expires c)).
 Proof. exact paths_agree. Qed.
 Print Assumptions c19_paths_agree.
+
+(* Server totals (SERVER, SERVER EXT, /metrics: sums over the registered collections) equal the
+   recomputation from every retrievable object of the server. *)
+Theorem c19_server_totals : forall cs : cols, Forall (fun kc => Wf (snd kc)) cs ->
+  srv_num_objects cs = Z.of_nat (length (all_objs cs)) /\
+  srv_num_strings cs = zsum (fun o => b2z (negb (o_spatial o))) (all_objs cs) /\
+  srv_num_points cs = zsum o_npoints (all_objs cs) /\
+  srv_in_memory_size cs = zsum o_weight (all_objs cs).
+Proof. exact server_totals. Qed.
+Print Assumptions c19_server_totals.
+
+(* num_collections counts exactly the keys holding a retrievable object, provided no registered
+   collection is empty (the keyspace invariant of C01; seeded change C19/1 breaks it). *)
+Theorem c19_num_collections : forall cs : cols, (forall kc, In kc cs -> scan_ids (snd kc) <> []) ->
+  srv_num_collections cs =
+    Z.of_nat (length (filter (fun kc => negb (Nat.eqb (length (scan_ids (snd kc))) 0)) cs)).
+Proof. exact num_collections_live. Qed.
+Print Assumptions c19_num_collections.
+
+(* Hook registry (Model/HookReg.v, invariant proved for C05): after any history of SETHOOK / SETCHAN /
+   DEL* / PDEL* / FLUSHDB / expiry, num_hooks = |HOOKS *| + |CHANS *|, names are unique, and the
+   secondary registries (expiry, fence tree, cross tree, outside list) hold only registered hooks. *)
+Theorem c19_hook_totals : forall ops,
+  let r := reg_run ops in
+  num_hooks r = (length (hooks_listing r) + length (chans_listing r))%nat /\
+  NoDup (map h_name (hooks r)) /\
+  (forall h, In h (hookExpires r) -> In h (hooks r)) /\
+  (forall h, In h (hookTree r) -> In h (hooks r)) /\
+  (forall h, In h (hookCross r) -> In h (hooks r)) /\
+  (forall h, In h (hooksOut r) -> In h (hooks r)).
+Proof. exact hook_totals. Qed.
+Print Assumptions c19_hook_totals.
 
 (* Bounds. Full statement wanted by the property:
      forall c b, Wf c -> bounds_ok c b = true -> bounds_exact c b = true
